@@ -63,6 +63,7 @@ type SuiteSpec struct {
 	NoopPackages []string          `json:"noopPackages"`
 	Replace      map[string]string `json:"replace"` // callee -> "importpath.Func" ("" = no-op)
 	Harnesses    []HarnessSpec     `json:"harnesses"`
+	NoopTypes    []string          `json:"noopTypes"` // "import/path.Type": every method is a no-op (results zero; a result of an interface type the receiver implements is the receiver)
 	Globals      map[string]string `json:"globals"` // "import/path.Var" -> "zero": never initialised from the package initialiser
 	Assumptions  []string          `json:"assumptions"`
 	Stubs        []string          `json:"stubs"`
@@ -282,7 +283,13 @@ func (m *Machine) globalObj(g *ssa.Global) *Obj {
 	o.Label = g.String()
 	m.globals[g] = o
 	if g.Pkg != nil && !m.P.initPkgSet[g.Pkg] {
-		if m.P.Suite.Globals[g.Pkg.Pkg.Path()+"."+g.Name()] == "zero" {
+		switch m.P.Suite.Globals[g.Pkg.Pkg.Path()+"."+g.Name()] {
+		case "zero":
+			return o
+		case "new":
+			// pointer variable: a fresh zero object of the element type
+			et := deref(t)
+			o.V = &Ptr{Obj: m.newObj(et, m.zero(et), "global-new "+g.String())}
 			return o
 		}
 		m.demandInit(g)
